@@ -5,6 +5,7 @@ import numpy.linalg as npla
 from autograd.extend import defjvp, defvjp
 
 from . import numpy_wrapper as anp
+from .numpy_vjps import unbroadcast_f
 from .numpy_wrapper import wrap_namespace
 
 wrap_namespace(npla.__dict__, globals())
@@ -65,11 +66,15 @@ defvjp(pinv, grad_pinv)
 
 
 def grad_solve(argnum, ans, a, b):
-    updim = lambda x: x if x.ndim == a.ndim else x[..., None]
+    # b is a (stack of) vector(s) exactly when the solution has one dimension less than a;
+    # a and b may be broadcast against each other over the leading dimensions
+    vector_rhs = anp.ndim(ans) == anp.ndim(a) - 1
+    updim = lambda x: x[..., None] if vector_rhs else x
+    downdim = lambda x: x[..., 0] if vector_rhs else x
     if argnum == 0:
-        return lambda g: -_dot(updim(solve(T(a), g)), T(updim(ans)))
+        return unbroadcast_f(a, lambda g: -_dot(solve(T(a), updim(g)), T(updim(ans))))
     else:
-        return lambda g: solve(T(a), g)
+        return unbroadcast_f(b, lambda g: downdim(solve(T(a), updim(g))))
 
 
 defvjp(solve, partial(grad_solve, 0), partial(grad_solve, 1))
